@@ -51,6 +51,21 @@ def replay_vectors(ctx, binpath, scratch, header, vectors, label, threads=8, dat
     return s
 
 
+def kinds(vectors):
+    """histogram of the expectations TLC printed: family (d = decoding handlers, f = serve_as_file_path) : kind [+ alternative]"""
+    h = {}
+    for v in vectors:
+        for fam in ("d", "f"):
+            for e in v[fam]:
+                key = fam + ":" + e[0] + ("+" + e[3] if len(e) > 3 else "")
+                h[key] = h.get(key, 0) + 1
+    return h
+
+
+# vacuity guard on the generated expectations: every kind of answer the property distinguishes must occur
+NEEDED_KINDS = ["d:f", "d:r", "d:n", "d:x", "d:x+f", "d:x+r", "f:f", "f:n", "f:x", "f:x+f"]
+
+
 def account(ctx, s, label, cfg):
     ctx.cov["evaluations"] += s["evaluations"]
     ctx.cov["distinct_nontrivial"] += s["nontrivial"]
@@ -97,12 +112,16 @@ def _run(ctx, thorough, binpath, tokio_bin, scratch, replay):
         mcs = [("MC_StaticFs_wide.cfg", "46 spellings, depth<=3, 3 routes"),
                ("MC_StaticFs_mid.cfg", "24 spellings, depth<=4, 3 routes"),
                ("MC_StaticFs_deep.cfg", "18 spellings (the property's catalogue), depth<=5, 1 route")]
-    for cfg, what in mcs:
-        r = run_tlc("MC_StaticFs.tla", cfg, D, workers=8, coverage=True, timeout=2400, work_id="c06")
+    for i, (cfg, what) in enumerate(mcs):
+        # action coverage is collected on the first configuration only (it slows TLC down; the others take the same action)
+        r = run_tlc("MC_StaticFs.tla", cfg, D, workers=8, coverage=(i == 0), timeout=2400, work_id="c06")
         ctx.add_tlc("handler model, Dev={}: " + what, r)
         ctx.require_tlc_ok(cfg, r)
-        ctx.require_cover(cfg, r, ACTIONS)
+        if i == 0:
+            ctx.require_cover(cfg, r, ACTIONS)
     for suffix, dev, inv in SENS:
+        if not thorough and suffix in ("DecodeTwice_pos", "GuardPrefixOnly_sound"):
+            continue                                          # second witness of the same deviation: thorough only
         r = run_tlc("MC_StaticFs.tla", "MC_StaticFs_dev_%s.cfg" % suffix, D, workers=2, timeout=600, work_id="c06")
         ctx.add_tlc("sensitivity: Dev={%s} must violate %s" % (dev, inv), r)
         if r.violation != "invariant" or r.violated_name != inv:
@@ -129,8 +148,13 @@ def _run(ctx, thorough, binpath, tokio_bin, scratch, replay):
         ctx.add_tlc("vector generation %s %s" % (cfg, env or ""), g)
         if not vectors:
             raise vlib.ToolError("generation %s printed no vectors" % cfg)
+        hist = kinds(vectors)
+        ctx.add_part("expectations " + label + (" first=%s" % env["GENFIRST"] if env.get("GENFIRST") else ""), **hist)
         if first_vectors is None:
             first_vectors = vectors
+            missing = [k for k in NEEDED_KINDS if not hist.get(k)]
+            if missing:
+                raise vlib.ToolError("vacuity guard: the generated vectors contain no expectation of kind(s) %s" % missing)
         data = lines_of(header) + lines_of(vectors)
         s = replay_vectors(ctx, binpath, scratch, header, vectors, label, data=data)
         account(ctx, s, label, cfg)
@@ -166,8 +190,8 @@ def _run(ctx, thorough, binpath, tokio_bin, scratch, replay):
             recs = rs
         with open(tpath, "w") as f:
             f.write(p.stdout)
-        t = run_tlc("Trace_StaticFs.tla", "Trace_StaticFs.cfg", D, workers=1, env={"TRACE": tpath, "WORLDS": wp},
-                    timeout=2400, work_id="c06", deque=True)
+        t = run_tlc("Trace_StaticFs.tla", "Trace_StaticFs.cfg", D, workers=8, env={"TRACE": tpath, "WORLDS": wp},
+                    timeout=2400, work_id="c06")
         ctx.add_tlc("trace validation of %d answers of the %s handlers in %d random worlds" % (len(rs), which, nw), t)
         ctx.cov["evaluations"] += len(rs)
         ctx.cov["traces_validated_against_impl"] += len(rs)
@@ -177,7 +201,7 @@ def _run(ctx, thorough, binpath, tokio_bin, scratch, replay):
         if t.violation:
             if t.violated_name == "TraceWorldsOk":
                 raise vlib.ToolError("a random world is malformed or the handler model fails on it: %s" % "\n".join(t.trace[:40]))
-            rej = t.prints[-1]["rejected"] if t.prints and isinstance(t.prints[-1], dict) and "rejected" in t.prints[-1] else []
+            rej = [r for x in t.prints if isinstance(x, dict) and "rejected" in x for r in x["rejected"]]
             if not rej:
                 raise vlib.ToolError("trace validation failed without a verdict: %s" % t.out[-1500:])
             pretty = [dict(r, uri_text=bytes(r["uri"]).decode("utf-8", "replace"), route_text=bytes(r["route"]).decode("utf-8", "replace")) for r in rej]
@@ -191,14 +215,15 @@ def _run(ctx, thorough, binpath, tokio_bin, scratch, replay):
     k = next((i for i, r in enumerate(recs) if r["st"] == 200), None)
     if k is None:
         raise vlib.ToolError("self-test: the random run served nothing")
-    lo = max(0, k - 20)
-    sub = [dict(r) for r in recs[lo:k + 1]]
+    lo = max(0, k - 80)                                   # (the trace must be at least as long as the list of worlds)
+    sub = [dict(r) for r in recs[lo:k + 1]] + [dict(r) for r in recs[:80]]
+    sub[-1], sub[k - lo] = sub[k - lo], sub[-1]
     sub[-1]["id"] = 900                                   # claim the canary was served
     sub[-1]["canary"] = True
     with open(tpath, "w") as f:
         f.write(lines_of(sub))
-    t2 = run_tlc("Trace_StaticFs.tla", "Trace_StaticFs.cfg", D, workers=1, env={"TRACE": tpath, "WORLDS": wpath},
-                 timeout=900, work_id="c06", deque=True)
+    t2 = run_tlc("Trace_StaticFs.tla", "Trace_StaticFs.cfg", D, workers=2, env={"TRACE": tpath, "WORLDS": wpath},
+                 timeout=900, work_id="c06")
     ctx.add_tlc("self-test: trace with one answer replaced by the canary must be rejected", t2)
     if t2.violation != "invariant" or t2.violated_name != "AllAgree":
         raise vlib.ToolError("binding self-test failed: a trace claiming the canary was served was accepted")
